@@ -472,7 +472,7 @@ class HttpParser:
 
     def _get_body_or_chunks(self) -> Optional[bytes]:
         return ChunkParser.to_chunks(self.body) \
-            if self.body and self._is_chunked_encoded else \
+            if self.body is not None and self._is_chunked_encoded else \
             self.body
 
     def _set_line_attributes(self) -> None:
